@@ -371,22 +371,33 @@ func c18Opts(m *c18Material, in []string, v *c18Vary) client.TLSClientOptions {
 	case f == "rz":
 		// a non-nil RSA key Validate rejects: all zero, a wrong private exponent, no primes
 		k := m.keys[0].(*rsa.PrivateKey)
-		switch v.pick(3) {
+		switch v.pick(5) {
 		case 0:
 			o.LoadedKey = &rsa.PrivateKey{}
 		case 1:
 			o.LoadedKey = &rsa.PrivateKey{PublicKey: k.PublicKey, D: big.NewInt(3), Primes: k.Primes}
-		default:
+		case 2:
 			o.LoadedKey = &rsa.PrivateKey{PublicKey: k.PublicKey, D: k.D}
+		case 3:
+			// incomplete keys (F18b, fixed: Validate used to dereference the missing component)
+			o.LoadedKey = &rsa.PrivateKey{PublicKey: k.PublicKey, Primes: k.Primes}
+		default:
+			o.LoadedKey = &rsa.PrivateKey{PublicKey: k.PublicKey, D: k.D, Primes: []*big.Int{k.Primes[0], nil}}
 		}
 	case f == "en":
 		o.LoadedKey = (*ecdsa.PrivateKey)(nil)
 	case f == "eb":
 		// a non-nil EC key x509 cannot marshal: a curve without OID, or no curve at all
-		if v.pick(2) == 0 {
+		switch v.pick(4) {
+		case 0:
 			o.LoadedKey = &ecdsa.PrivateKey{}
-		} else {
+		case 1:
 			o.LoadedKey = m.badCurve
+		case 2:
+			// incomplete keys (F18b, fixed: MarshalECPrivateKey used to dereference the missing component)
+			o.LoadedKey = &ecdsa.PrivateKey{PublicKey: ecdsa.PublicKey{Curve: elliptic.P256()}}
+		default:
+			o.LoadedKey = &ecdsa.PrivateKey{PublicKey: m.keys[1].(*ecdsa.PrivateKey).PublicKey}
 		}
 	case strings.HasPrefix(f, "r:"):
 		k, ok := m.keys[c18KeyID(m, f[2:])].(*rsa.PrivateKey)
